@@ -158,7 +158,13 @@ func c08IdPRun(c *core.Ctx, layout []c08KD, runLen int) {
 	c.Observe("random_source_read_sizes", fmt.Sprintf("max %d bytes per Read (0 = whole buffer)", rnd.MaxChunk))
 	xmlenc.RandReader = rnd
 	saml.RandReader = fx.NewRecReader(c.Rng.Int63())
-	w := so.NewIDPWorld()
+	if c08LiveWorld == nil { // one IdP object per process
+		c08LiveWorld = so.NewIDPWorld()
+	}
+	w := c08LiveWorld
+	for id := range w.Registry {
+		delete(w.Registry, id)
+	}
 	md := &saml.EntityDescriptor{EntityID: so.SPMeta}
 	d := saml.SPSSODescriptor{AssertionConsumerServices: []saml.IndexedEndpoint{{Binding: saml.HTTPPostBinding, Location: so.SPACS, Index: 1}}}
 	var names []string
@@ -530,3 +536,5 @@ func c08Differential(c *core.Ctx, mine func() bool) {
 		c.SampleSome(map[string]any{"case": desc, "accepted": e1 == nil})
 	}
 }
+
+var c08LiveWorld *so.IDPWorld
